@@ -250,7 +250,11 @@ func (w *World) Do(it Item, deadline time.Duration) Outcome {
 func Alphabet(w *World, cfg MutCfg, targets []string) []Item {
 	var out []Item
 	for _, r := range w.bases(targets) {
-		for _, v := range cfg.variants(r.msg) {
+		vs := cfg.variants(r.msg)
+		if r.baseOnly {
+			vs = vs[:1]
+		}
+		for _, v := range vs {
 			it := Item{Kind: "grpc", Method: r.method, Stream: r.stream, State: r.state, Target: r.target, Base: r.name, Desc: v.desc, msg: v.msg, mut: v.mut, req: r}
 			if r.resign == nil {
 				out = append(out, it)
